@@ -104,6 +104,24 @@ pub fn replay_any(spec: &ShardSpec, hist: &[String], quiet: bool) -> i32 {
                 }
             }
         }
+        "e7" => {
+            // a sweep is one deterministic run: replaying it is running it again
+            let res = shard::run_shard(spec, None, None);
+            match res.violations.first() {
+                None => {
+                    println!("replay: no violation");
+                    0
+                }
+                Some(v) => {
+                    if !quiet {
+                        println!("last calls of the sweep: {:?}", v.history);
+                    }
+                    println!("replay: violation: {}: {}", v.kind, v.msg);
+                    println!("SIG {}", v.sig);
+                    1
+                }
+            }
+        }
         "e3" | "e3s" | "c14" | "e4" => {
             let ops = match shard::strings_to_ops(hist) {
                 Ok(o) => o,
@@ -313,7 +331,7 @@ pub fn plan(prop: &str, tier: &str) -> Option<Plan> {
             let a = "mut1+ch0+shape+fill/mut1+ch0+cap+fill+clone";
             if q {
                 for &hk in &HS4 {
-                    s.push(e1(prop, "u32", hk, 0, a, &fl, 40, 2, 1, "chk", 40.0));
+                    s.push(e1(prop, "u32", hk, 0, a, &fl, if hk == H_CONST || hk == H_LOW { 31 } else { 40 }, 2, 1, "chk", 40.0));
                 }
                 s.push(e1(prop, "u32", H_GOOD, 0, "cap+fill+clone", &fl, 600, 1, 0, "chk", 40.0));
                 s.push(e1(prop, "u32", H_GOOD, 0, "mut1+ch0+shape+cap+fill", &fl, 130, 1, 1, "chk", 40.0));
@@ -322,7 +340,10 @@ pub fn plan(prop: &str, tier: &str) -> Option<Plan> {
                 s.push(e2(prop, "zst", H_GOOD, "mut+ch1+bulk2+shape2+fill", &fl, 1, "chk", 40.0));
                 s.push(sweep(prop, "u32", H_GOOD, 200_000, &["c03", "c10", "cheap"], &[("stride", "0"), ("fill", "1"), ("audit_every", "50000")], "chk", 40.0));
                 s.push(sweep(prop, "u32", H_LOW, 20_000, &["c03", "c10", "cheap"], &[("stride", "3"), ("fill", "1"), ("mix", "1"), ("audit_every", "5000")], "chk", 40.0));
-                bounds = json!({"E7": "head-room probe shortly after every resize start on the growth path to 2*10^5 elements (with tombstones to 2*10^4)", "E1": "d<=2 at N=40 (4 hashers); d<=1 at N=130 (every key) and at every n<=600 with the boundary menu", "E2": "fixpoint u=4 with the head-room probe at every state"});
+                for f in ["6", "10", "16", "28"] {
+                    s.push(sweep(prop, "u32", H_GOOD, 150_000, &["c03", "c10", "cheap"], &[("stride", "0"), ("shrink_frac", f), ("audit_every", "50000")], "chk", 40.0));
+                }
+                bounds = json!({"E7": "head-room probe shortly after every resize start on the growth path to 2*10^5 elements (with tombstones to 2*10^4); and at every resize start up to 1.5*10^5 elements: remove len/f of the oldest keys (f in {6,10,16,28}), shrink_to_fit, head-room probe", "E1": "d<=2 at N=40 (HGood, HTag) / N=31 (HLow, HConst); d<=1 at N=130 (every key) and at every n<=600 with the boundary menu", "E2": "fixpoint u=4 with the head-room probe at every state"});
             } else {
                 for &hk in &HS4 {
                     s.push(e1(prop, "u32", hk, 0, a, &fl, 64, 2, 1, "chk", 900.0));
@@ -338,6 +359,9 @@ pub fn plan(prop: &str, tier: &str) -> Option<Plan> {
                 s.push(e2(prop, "zst", H_GOOD, "mut+ch1+bulk2+shape2+fill", &fl, 1, "chk", 100.0));
                 for st in ["0", "2", "3", "8"] {
                     s.push(sweep(prop, "u32", H_GOOD, 3_000_000, &["c03", "c10", "cheap"], &[("stride", st), ("fill", "1"), ("mix", "1"), ("audit_every", "200000")], "chk", 600.0));
+                }
+                for f in ["5", "6", "8", "10", "12", "16", "20", "28", "40"] {
+                    s.push(sweep(prop, "u32", H_GOOD, 1_000_000, &["c03", "c10", "cheap"], &[("stride", "0"), ("shrink_frac", f), ("audit_every", "200000")], "chk", 600.0));
                 }
                 bounds = json!({"E7": "head-room probe shortly after every resize start on the growth path to 3*10^6 elements, tombstone strides {none,2,3,8}", "E1": "d<=2 at N=64 (4 hashers); d<=3 at N=31; d<=1 at every n<=4096 with the boundary menu", "E2": "fixpoint u=6 / u=5 with the head-room probe at every state"});
             }
